@@ -157,6 +157,64 @@ def _classify(repo, ci, n, par, pm, attrs) -> str:
     return "bad"
 
 
+POINTWISE = ("FCN", "Harmonic_FCN", "Polynomial_FCN", "QRES", "DeepRitzNet", "NormalizationLayer", "Sequential", "Parallel", "FNO", "DeepONet", "FCTrunkNet")
+MIXING = ("transpose", "permute", "reshape", "view", "flatten", "movedim", "swapaxes", "swapdims", "T", "mT", "roll", "flip", "unflatten", "ravel")
+ROWWISE_SCOPE = ("FCN", "Harmonic_FCN", "Polynomial_FCN", "QRES", "DeepRitzNet", "NormalizationLayer")
+
+
+def _depends_on(expr, pname) -> bool:
+    return any(isinstance(n, ast.Name) and n.id == pname for n in ast.walk(expr))
+
+
+def r4_purity_and_label(repo: Repo, rep):
+    R4 = rep.rule("R-C08-4", "forward/_fix_points_order of a point-wise model stores nothing derived from its input on self",
+                  floor=10, why="state derived from one call's input and reused by a later call makes the output depend on the call history, "
+                  "not only on the named values")
+    R5 = rep.rule("R-C08-5", "the Points a forward returns are labelled with self.output_space", floor=7,
+                  why="labelling the output with the caller's space binds output columns to the wrong names")
+    R6 = rep.rule("R-C08-6", "row-wise models use no batch-axis re-arranging tensor operation", floor=6,
+                  why="reshape/transpose/permute can mix rows; outside the decidable idiom table they are reported UNDECIDED, never as violation")
+    model = repo.cls("models.model.Model")
+    branch = repo.cls("models.deeponet.branchnets.BranchNet")
+    funcs = []
+    fpo = model.methods.get("_fix_points_order")
+    if fpo is not None:
+        funcs.append((model, fpo))
+    for ci in repo.subclasses(model, strict=True):
+        if repo.is_subclass(ci, branch):
+            continue
+        fi = ci.methods.get("forward")
+        if fi is not None:
+            funcs.append((ci, fi))
+    for ci, fi in funcs:
+        rep.saw(fi)
+        pname = fi.params[1] if len(fi.params) > 1 else None
+        stores = []
+        for p in paths(fi.node):
+            for e in p.events:
+                if e.kind in ("attr", "aug", "store") and e.target is not None and dump(e.target).startswith("self."):
+                    if pname and e.value is not None and _depends_on(e.value, pname):
+                        stores.append(f"{dump(e.target)} = {dump(e.value)[:80]}")
+        stores = sorted(set(stores))
+        rep.check(R4, not stores, fi.site(), fi.fq, "no attribute of self receives a value computed from the input", f"stores {stores[:2]}", str(stores[:2]))
+        if fi.name != "forward":
+            continue
+        for p in paths(fi.node):
+            if p.ret is RAISE or p.ret is None:
+                continue
+            r = p.ret
+            if isinstance(r, ast.Call) and ends(attr_chain(r.func), "Points") and attr_chain(r.func) in ("Points",):
+                sp = r.args[1] if len(r.args) > 1 else next((k.value for k in r.keywords if k.arg == "space"), None)
+                rep.check(R5, sp is not None and dump(sp) == "self.output_space", fi.site(p.ret_node), fi.fq,
+                          "returned Points(..., self.output_space)", f"space argument `{dump(sp)}`", dump(sp))
+        if ci.name in ROWWISE_SCOPE:
+            mix = sorted({n.attr for n in ast.walk(fi.node) if isinstance(n, ast.Attribute) and n.attr in MIXING})
+            if mix:
+                rep.undecided(R6, fi.site(), fi.fq, "only row-preserving tensor operations", f"uses {mix}: row independence not decidable by this rule")
+            else:
+                rep.ok(R6, fi.site(), fi.fq, "only row-preserving tensor operations", "no reshape/transpose/permute/view/flatten/roll/flip")
+
+
 def r2_fix_points_order(repo: Repo, rep):
     R = rep.rule("R-C08-2", "_fix_points_order returns the input only when its space equals input_space, else the columns "
                  "selected by list(self.input_space.keys()); a differing key set raises", floor=2,
@@ -283,6 +341,7 @@ def run(repo: Repo, rep):
     r1_sanitiser(repo, rep)
     r2_fix_points_order(repo, rep)
     r3_compositions(repo, rep)
+    r4_purity_and_label(repo, rep)
 
 
 _F = "src/torchphysics/models/fcn.py"
